@@ -29,6 +29,12 @@ CHECKS = {
    text="Seeded exploration of (length, CPU count, data, schedule): the shipped dot_f64 runs as shuttle tasks whose every scheduling decision comes from VERIF_SEED and is recorded; every (len 0..=200) x (CPUs 1..=16) pair is visited in every tier, plus lengths to 5000 and CPU counts to 200; oracles are exact-integer equality, a reassociation error bound, basis probes (each index covered exactly once), bit-identity across schedules and repeated calls, no panic/deadlock, operands intact. Sampling of schedules, not proof.",
    design="§4.1",
    note="Trusted: shuttle's model of std::thread::scope/spawn/join; the CPU-count override standing in for num_cpus::get (cross-checked by Miri with real std threads and -Zmiri-num-cpus in the thorough tier); the Dot2 reference and the gamma(n) bound for general floats; +0.0 == -0.0."),
+ "C17": dict(
+   engine="simcheck (scripted-callback simulator with fault script)",
+   technique="deterministic simulation of the user function / user Jacobian as a scripted, recording, fault-injecting peer of the Newton iteration protocol; seeded search over scripts, fault keyings (evaluation index, region) and parameters; reference-model Newton step; restart-composition and replay oracles; shrinking",
+   text="All six real solve/solve_jacobian methods run against a simulated user function that answers from a script (polynomials in product form, exp/sin equations, strictly diagonally dominant systems of dimension 1..6; root-free, non-differentiable and constant scripts), injects NaN/+-Inf/1e300 at a chosen evaluation index, user-Jacobian call or region, counts and hashes every call and aborts runaway solvers. Oracles: returns (no panic/hang), evaluations <= E*max_iter+1 and zero work with max_iter=0, parameters() untouched and a rewound second call bit-identical in result and call history, failure payload is the last iterate (restart composition, one-step reference model), no Ok on scripts whose stopping criterion cannot be met, in-basin success within O(tol) of the root, Ok-implies-near-a-root anywhere. Seeded sampling, not proof; the in-basin/anywhere halves are numerical sampling that simulation merely hosts.",
+   design="§4.3",
+   note="Trusted: per-iteration evaluation cost E of the documented scheme (3 scalar, n+2 finite-difference systems, 1+1 user Jacobian) with one residual evaluation of slack; basin radii derived in DESIGN.md §4.3; harness-side reference arithmetic (complex helpers, Gaussian elimination); under injected faults no Ok/Err expectation."),
  "C18": dict(
    engine="simcheck (scripted-callback simulator)",
    technique="deterministic simulation of the user map as a scripted, recording, possibly faulty peer: stencil classification, table/affine/smooth environments, injected NaN/Inf/panic; seeded search with shrinking",
